@@ -65,4 +65,13 @@ pub fn vx_lower_starts_with(text: &str, prefix: &str) -> (r: bool)
     text.to_lowercase().starts_with(prefix)
 }
 
+pub uninterp spec fn str_trim_start(s: Seq<char>) -> Seq<char>;
+/// `text.trim_start().to_lowercase().starts_with(prefix)` (R7 chain wrapper)
+#[verifier::external_body]
+pub fn vx_trim_lower_starts_with(text: &str, prefix: &str) -> (r: bool)
+    ensures r == prefix@.is_prefix_of(str_lower(str_trim_start(text@))),
+{
+    text.trim_start().to_lowercase().starts_with(prefix)
+}
+
 } // verus!
